@@ -63,7 +63,9 @@ pub fn check(case: &Case) -> Outcome {
 
     // The decoder is a function of its input alone: damaged copies of the document (cut short inside its containers,
     // closing `e`s removed) are decoded first, in the same thread, and must not change what the intact one decodes to.
-    if enc.len() >= 2 {
+    // (documents up to 4 KiB only: removing an `e` from a longer one can turn a big delimiter-rich string into tens of
+    // thousands of nested containers, which is C16's deep-nesting finding, not this property's subject)
+    if enc.len() >= 2 && enc.len() <= 4096 {
         let cut_half = &enc[..enc.len() / 2];
         let cut_last = &enc[..enc.len() - 1];
         let no_e: Vec<u8> = enc.iter().copied().filter(|b| *b != b'e').collect();
